@@ -400,7 +400,7 @@ func c10Limiter(c *Ctx, allow *ssa.Function, limType *types.Named) {
 			}
 		}
 	}
-	c.Floor("limiter-table-access", 2, "two LoadOrStore sites in Allow")
+	c.Floor("limiter-table-access", 1, "LoadOrStore in Allow")
 
 	// (2) Allow: every return value is false or (*rate.Limiter).Allow() of LoadOrStore(IP.String(), newLimiter(interval,burst))#0
 	for _, r := range Returns(allow) {
@@ -482,7 +482,32 @@ func c10Limiter(c *Ctx, allow *ssa.Function, limType *types.Named) {
 			// key: X.IP.String() where X is the asserted *net.TCPAddr / *net.UDPAddr of p1
 			keyv := Unwrap(ls.Call.Args[1])
 			kr := Render(keyv)
-			isIPKey := func(kv ssa.Value) bool {
+			var isIPKeyOf func(kv ssa.Value, addr ssa.Value, d int) bool
+			isIPKey := func(kv ssa.Value) bool { return isIPKeyOf(kv, allow.Params[1], 0) }
+			isIPKeyOf = func(kv ssa.Value, addr ssa.Value, d int) bool {
+				// the key computed by a helper of the package: every key it returns is the bare IP of ITS address parameter
+				if ex, isE := Unwrap(kv).(*ssa.Extract); isE && ex.Index == 0 && d < 2 {
+					if hc, isC := ex.Tuple.(*ssa.Call); isC {
+						if hf := hc.Call.StaticCallee(); hf != nil && InRepo(hf) && hf.Blocks != nil {
+							for ai, a := range hc.Call.Args {
+								if a != addr || ai >= len(hf.Params) {
+									continue
+								}
+								all := len(Returns(hf)) > 0
+								for _, r2 := range Returns(hf) {
+									v0 := RetVals(r2)[0]
+									if s0, isS := ConstString(v0); isS && s0 == "" {
+										continue
+									}
+									if !isIPKeyOf(v0, hf.Params[ai], d+1) {
+										all = false
+									}
+								}
+								return all
+							}
+						}
+					}
+				}
 				kc, ok := Unwrap(kv).(*ssa.Call)
 				if !ok || !MethodIs(kc.Call.StaticCallee(), "net", "IP", "String") {
 					return false
@@ -500,7 +525,7 @@ func c10Limiter(c *Ctx, allow *ssa.Function, limType *types.Named) {
 					src = ex.Tuple
 				}
 				ta2, ok := src.(*ssa.TypeAssert)
-				return ok && ta2.X == ssa.Value(allow.Params[1])
+				return ok && ta2.X == addr
 			}
 			okKey := true
 			if ph, ok := keyv.(*ssa.Phi); ok {
@@ -521,7 +546,7 @@ func c10Limiter(c *Ctx, allow *ssa.Function, limType *types.Named) {
 			c.Check(okNew, "limiter-bucket-params", k, p.InstrPos(ls), "new buckets use l.interval, l.burst", "new bucket not created with rate.NewLimiter(l.interval, l.burst): "+Render(nv))
 		}
 	}
-	c.Floor("limiter-decision", 3, "tcp arm, udp arm, refusal")
+	c.Floor("limiter-decision", 2, "an accepting arm and the refusal")
 
 	// (3) NewLimiter / every store to Limiter.burst and .interval
 	for _, fld := range []string{"burst", "interval"} {
